@@ -63,6 +63,19 @@ let dispatch fn args = match fn, args with
         | POk (_, ct', _, _) -> str_contents ct', str_of_bool (detect_page ct')
         | PFuel -> "fuel", "-" | PNoContents -> "err:nocontents", "-") in
       Printf.sprintf "add=%s|det=%s|rm=%s|det2=%s" (str_contents added) (str_of_bool det) rms det2
+  | "pageseq", [seq; ct] ->
+      (* seq: onTop:mtx:gs:xo;...  one entry per AddWatermarks call *)
+      let adds = List.map (fun e ->
+        match String.split_on_char ':' e with
+        | [t; m; g; x] -> (bool_of_str t, wm_content (by m) (by g) (by x))
+        | _ -> failwith "bad seq") (String.split_on_char ';' seq) in
+      let added = add_seq adds (contents_of ct) in
+      let det = detect_page added in
+      let rm = remove_page added in
+      let rms, det2 = (match rm with
+        | POk (_, ct', _, _) -> str_contents ct', str_of_bool (detect_page ct')
+        | PFuel -> "fuel", "-" | PNoContents -> "err:nocontents", "-") in
+      Printf.sprintf "add=%s|det=%s|rm=%s|det2=%s" (str_contents added) (str_of_bool det) rms det2
   | "doc", [onTop; ocg; seladd; selrm; pages] ->
       let wm = wm_content (by "31203020302031203020") (by "475330") (by "466d30") in
       let d = { d_ocg = bool_of_str ocg; d_pages = pages_of pages } in
